@@ -40,13 +40,13 @@ var Props = map[string]*PropCfg{
 	"C02": {ID: "C02", E2: true, E1: true, Level: "proof",
 		Explanation: "EQ obligations restricted to the gas path (gas tables, memory gas, charging sequence, frame functions) plus unary E1 gas postconditions on the frame functions.",
 		Assumptions: []string{"as C01"}},
-	"C03": {ID: "C03", E1: true, Syntactic: []string{"no-recover"}, Level: "proof",
+	"C03": {ID: "C03", E1: true, Syntactic: []string{"no-recover"}, Ground: []string{"journal-table"}, Level: "proof",
 		Explanation: "Annotation-free safety sweep (slice/index bounds, nil dereference, division, type assertion, makeslice, explicit panic, library preconditions) over every Artela-specific function, under the instruction protocol / host preconditions stated as requires; bookkeeping postconditions.",
 		Assumptions: []string{hostAssume, "upstream-derived functions crash exactly where go-ethereum v1.12.0 does (C01 EQ); the reference is assumed crash-free on its domain"}},
 	"C04": {ID: "C04", E1: true, E2: true, Level: "proof", Explanation: "Ghost snapshot/dirty monitor on the five frame functions.", Assumptions: []string{"StateDB.RevertToSnapshot restores the state of the matching Snapshot (go-ethereum journal, trusted)", hostAssume}},
-	"C05": {ID: "C05", E1: true, Level: "proof", Explanation: "Ghost event-trace monitor on (*EVM).Call: join-point protocol and message fields.", Assumptions: []string{hostAssume}},
+	"C05": {ID: "C05", E1: true, Syntactic: []string{"jp-flag-writers"}, Level: "proof", Explanation: "Ghost event-trace monitor on (*EVM).Call: join-point protocol and message fields.", Assumptions: []string{hostAssume}},
 	"C06": {ID: "C06", E1: true, Level: "proof", Explanation: "Gas clauses on (*EVM).Call with abstract join-point results.", Assumptions: []string{"the Aspect runtime reports Gas <= the gas passed in (external, assumed)", hostAssume}},
-	"C07": {ID: "C07", E1: true, Level: "proof", Explanation: "Quantified well-formedness invariant of CallTree preserved by add/exit; Call/create open and close exactly one node.", Assumptions: []string{"count+1 does not wrap (2^64 calls)"}},
+	"C07": {ID: "C07", E1: true, Syntactic: []string{"calltree-encapsulated"}, Level: "proof", Explanation: "Quantified well-formedness invariant of CallTree preserved by add/exit; Call/create open and close exactly one node.", Assumptions: []string{"count+1 does not wrap (2^64 calls)"}},
 	"C08": {ID: "C08", E1: true, E2: true, Level: "proof", Explanation: "Field and freshness clauses on CallTree.add/exit and the SaveCall/ExitCall sites of Call/create.", Assumptions: []string{hostAssume}},
 	"C09": {ID: "C09", E1: true, Level: "proof", Explanation: "Journal opcodes against the Solidity layout spec functions.", Assumptions: []string{"keccak256 is an uninterpreted function (only its argument is checked)", hostAssume}},
 	"C10": {ID: "C10", E1: true, E2: true, Level: "proof", Explanation: "Attribution clauses: Contract.Address() at every journal site, CurrentCallIndex, StorageChanges.append whole-view spec.", Assumptions: []string{hostAssume}},
@@ -58,7 +58,7 @@ var Props = map[string]*PropCfg{
 	"C16": {ID: "C16", E1: true, Syntactic: []string{"package-frame", "nondeterminism-sources"}, Level: "proof", Explanation: "Canonical order of list-valued queries, nondeterminism-source sweep, package frame.", Assumptions: []string{"determinism of the host, StateDB and Aspect runtime"}},
 	"C17": {ID: "C17", E1: true, Syntactic: []string{"package-frame", "abort-atomic-only", "no-goroutines"}, Level: "proof", Explanation: "Ownership and poll lemmas only: instances share no mutable data; abort touched only atomically; jumps poll abort. No interleaving is explored.", Assumptions: []string{"Go memory model, sync.Pool, the StateDB and the djpm global are trusted; schedules not explored"}},
 	"C18": {ID: "C18", E2: true, E1: true, Level: "proof", Explanation: "EQ over tracers/** and every EVMLogger call site in vm; unary enter/exit balance on Call.", Assumptions: []string{"encoding/json omitempty semantics"}},
-	"C19": {ID: "C19", E1: true, E2: true, Level: "proof", Explanation: "Safety sweep and tracer invariant on callTracer / flatCallTracer methods.", Assumptions: []string{"events arrive well nested (typestate preconditions)"}},
+	"C19": {ID: "C19", E1: true, E2: true, Syntactic: []string{"loopvar-escape"}, Level: "proof", Explanation: "Safety sweep and tracer invariant on callTracer / flatCallTracer methods.", Assumptions: []string{"events arrive well nested (typestate preconditions)"}},
 	"C20": {ID: "C20", E1: true, E2: true, Level: "proof", Explanation: "Ghost work counter bounded by a declared constant for every flat-fee instruction.", Assumptions: []string{"per-unit costs of StateDB reads and hashing are the reference schedule's"}},
 }
 
